@@ -772,7 +772,7 @@ int __wrap_pthread_mutex_unlock(pthread_mutex_t* m) {
   return rc;
 }
 
-[[noreturn]] void __assert_fail(const char* expr, const char* file, unsigned line, const char* func) {
+void __assert_fail(const char* expr, const char* file, unsigned line, const char* func) noexcept(true) {
   if (sim::tls_assert_jmp != nullptr) {
     jmp_buf* jb = sim::tls_assert_jmp;
     sim::tls_assert_jmp = nullptr;
